@@ -68,34 +68,47 @@ def run(c):
     if not okh:
         c.broken.append("holders harness does not compile against /repo: " + hlog[-1500:])
         return False
+    thorough = c.tier == "thorough"
+    nassert = [0]
+
+    def batch(cases):
+        """run one batch through both executables and compare (bounded memory)"""
+        if not cases:
+            return
+        for cid, ls in cases:
+            h = ls[0].split()
+            key = "holders_%s_%s" % (h[1], h[2]) if len(h) == 3 else "holders_other"
+            c.count(key + "_cases"); c.count("holders_ops", len(ls) - 1)
+            c.count("holders_exhaustive_cases" if cid.startswith("ex-") else "holders_corpus_cases" if cid.startswith("corpus") else "holders_sampled_cases")
+        impl = vlib.run_cases(har, cases, shards=6)
+        model = vlib.run_cases(drv, cases, shards=4) if okd else {}
+        nassert[0] += sum(1 for r in impl.values() if r["lines"] and r["lines"][-1] in ("assert", "ub"))
+        c.compare(cases, impl, model, nontrivial)
+
     if c.replay:
-        cases = [cs for cs in vlib.read_replay(c.replay) if cs[1]]
+        batch([cs for cs in vlib.read_replay(c.replay) if cs[1]])
     else:
-        cases = gen.corpus(ok19)
-        thorough = c.tier == "thorough"
-        for ty, kinds in gen.KINDS.items():
-            if ty == "tup":
-                continue
-            for k in kinds:
-                cases += gen.exhaustive(ty, k, 2, core=False, exp_copy_assign=ok19)
-                if thorough:
-                    ex3 = gen.exhaustive(ty, k, 3, core=True, exp_copy_assign=ok19)
-                    cases += [cs for cs in ex3 if cs[0].split("-")[-2] == "3"]
-        cases += gen.tuple_exhaustive()
+        first = gen.corpus(ok19) + gen.tuple_exhaustive()
         n = 1500 if not thorough else 15000
         types = [t for t in gen.KINDS for _ in range(1 if t in ("tup", "umem", "box") else 3)]
         for i in range(n):
             ty = c.rng.choice(types)
             k = c.rng.choice(gen.KINDS[ty])
-            cases.append(("g%d-%s-%s" % (i, ty, k), gen.gen_case(c.rng, ty, k, c.rng.choice([6, 12, 25, 60]), ok19)))
-    for cid, ls in cases:
-        h = ls[0].split()
-        key = "holders_%s_%s" % (h[1], h[2]) if len(h) == 3 else "holders_other"
-        c.count(key + "_cases"); c.count("holders_ops", len(ls) - 1)
-        c.count("holders_exhaustive_cases" if cid.startswith("ex-") else "holders_corpus_cases" if cid.startswith("corpus") else "holders_sampled_cases")
-    impl = vlib.run_cases(har, cases, shards=6)
-    model = vlib.run_cases(drv, cases, shards=4) if okd else {}
-    nassert = sum(1 for r in impl.values() if r["lines"] and r["lines"][-1] in ("assert", "ub"))
-    c.count("holders_cases_ending_in_assert", nassert)
-    c.compare(cases, impl, model, nontrivial)
+            first.append(("g%d-%s-%s" % (i, ty, k), gen.gen_case(c.rng, ty, k, c.rng.choice([6, 12, 25, 60]), ok19)))
+        batch(first)
+        for ty, kinds in gen.KINDS.items():
+            if ty == "tup":
+                continue
+            for k in kinds:
+                cases = gen.exhaustive(ty, k, 2, core=False, exp_copy_assign=ok19)
+                if thorough:
+                    # length 3: full alphabet for the copy+move element type (core alphabet for variant, whose
+                    # product is 25 set-ups x 41^3), core alphabet for the move-only / copy-only element types
+                    full3 = (k == "F" and ty != "var")
+                    ex3 = gen.exhaustive(ty, k, 3, core=not full3, exp_copy_assign=ok19)
+                    cases += [cs for cs in ex3 if cs[0].split("-")[-2] == "3"]
+                    del ex3
+                batch(cases)
+                del cases
+    c.count("holders_cases_ending_in_assert", nassert[0])
     return True
